@@ -1,10 +1,11 @@
 SPECIFICATION Spec
 CONSTANTS
-  N = 3
+  N = 2
   StrayScripts = {"wrong", "wrongid", "long", "right", "split", "silent", "flood"}
   Outcomes = {"refuse", "dead", "good", "badreply", "noreply"}
   Rendezvous = TRUE
   MaxData = 1
+  Pumps = TRUE
 INVARIANTS TypeOK AtMostOneAdopted AdoptedAuthenticated NoAnswerToStrangers OnlyAdoptedFeeds FallbackWorks AgreeConsistent NoLateAdoption
 PROPERTIES InbandIgnoredAfterAgree
 CHECK_DEADLOCK FALSE
